@@ -4,8 +4,10 @@
   The index arithmetic (number of decimation nodes per axis, residuals, node coordinates) is a
   *parameter* of the model: `Gen.C15.nxOf / nyOf / lcxOf / lcyOf / nodeRow / nodeCol` are regenerated
   from the source on every run and plugged in by the driver and by `Properties/C15.lean`.
-  Everything else — decimation `[::f, ::f]`, the copy of the last row / column / corner, the
-  CRPIX / CDELT / CD rescale, the BN_* keywords, the checks that
+  So is (deepening round) the keyword arithmetic: `HdrArith` (CRPIX updates, CDELT/CD dispatch and rescale of
+  both functions) and `BnArith` (what goes under each BN_* key, which keys give the expanded shape, which keys are
+  deleted) are bundles of regenerated functions; `compress` / `expand` are the fixed glue around them.
+  Everything else — decimation `[::f, ::f]`, the copy of the last row / column / corner, the checks that
   `scipy.interpolate.RegularGridInterpolator` performs (strictly ascending grid, no point outside
   the grid), its cell search and its bilinear formula, the keyword restore / delete — is written
   here by hand and tied to the code by `harness/corr_C15.py`.
@@ -24,6 +26,30 @@ namespace Aegean.Model.C15
 def nNodesHand (n f : Nat) : Nat := if n % f > 0 then n / f + 1 else n / f
 /-- `(k + int(lc / f)) * f` with the truncated quotient taken in `Nat` -/
 def nodeHand (k lc f : Nat) : Nat := (k + lc / f) * f
+
+variable {α : Type} [R α] in
+/-- `(CRPIX + f − 1) / f`, `(CRPIX − 1)·f + 1`, `v·f`, `v/f` -/
+def crpixC1Hand (c1 _c2 f : α) : α := (c1 + f - R.ofNat 1) / f
+variable {α : Type} [R α] in
+def crpixC2Hand (_c1 c2 f : α) : α := (c2 + f - R.ofNat 1) / f
+variable {α : Type} [R α] in
+def crpixE1Hand (c1 _c2 f : α) : α := (c1 - R.ofNat 1) * f + R.ofNat 1
+variable {α : Type} [R α] in
+def crpixE2Hand (_c1 c2 f : α) : α := (c2 - R.ofNat 1) * f + R.ofNat 1
+variable {α : Type} [R α] in
+def upHand (v f : α) : α := v * f
+variable {α : Type} [R α] in
+def dnHand (v f : α) : α := v / f
+/-- `if 'CDELTi' in header … elif 'CDi_i' in header … else return None` -/
+def keyHand (hasA hasB : Nat) : Nat := if hasA > 0 then 1 else if hasB > 0 then 2 else 0
+def bnCfacHand (f _n1 _n2 _lx _ly : Nat) : Nat := f
+def bnNpx1Hand (_f n1 _n2 _lx _ly : Nat) : Nat := n1
+def bnNpx2Hand (_f _n1 n2 _lx _ly : Nat) : Nat := n2
+def bnRpx1Hand (_f _n1 _n2 lx _ly : Nat) : Nat := lx
+def bnRpx2Hand (_f _n1 _n2 _lx ly : Nat) : Nat := ly
+def outRowsHand (_npx1 npx2 : Nat) : Nat := npx2
+def outColsHand (npx1 _npx2 : Nat) : Nat := npx1
+def bnDeletedHand (_ : Nat) : Nat := 31
 
 /-! ### data -/
 
@@ -69,29 +95,70 @@ inductive Err
 
 variable {α : Type} [R α]
 
+/-- the regenerated keyword arithmetic of both functions (`Gen.C15.crpixC1 … dnB2`) -/
+structure HdrArith (α : Type) where
+  /-- new CRPIX1 / CRPIX2 in compress (C) and expand (E), from (CRPIX1, CRPIX2, factor) -/
+  crpixC1 : α → α → α → α
+  crpixC2 : α → α → α → α
+  crpixE1 : α → α → α → α
+  crpixE2 : α → α → α → α
+  /-- which scale keyword of axis i is rescaled, from (CDELTi present, CDi_i present): 0 none (refusal),
+      1 CDELTi, 2 CDi_i -/
+  keyC1 : Nat → Nat → Nat
+  keyC2 : Nat → Nat → Nat
+  keyE1 : Nat → Nat → Nat
+  keyE2 : Nat → Nat → Nat
+  /-- the new value of CDELTi (A) / CDi_i (B) in compress (up) and expand (dn), from (value, factor) -/
+  upA1 : α → α → α
+  upB1 : α → α → α
+  upA2 : α → α → α
+  upB2 : α → α → α
+  dnA1 : α → α → α
+  dnB1 : α → α → α
+  dnA2 : α → α → α
+  dnB2 : α → α → α
+
+/-- the regenerated BN_* bookkeeping: what compress stores under each key (from factor, NAXIS1, NAXIS2, lcx, lcy),
+    which keys give the shape of the expanded image, and which keys expand deletes (bit mask, 31 = all five) -/
+structure BnArith where
+  cfac : Nat → Nat → Nat → Nat → Nat → Nat
+  npx1 : Nat → Nat → Nat → Nat → Nat → Nat
+  npx2 : Nat → Nat → Nat → Nat → Nat → Nat
+  rpx1 : Nat → Nat → Nat → Nat → Nat → Nat
+  rpx2 : Nat → Nat → Nat → Nat → Nat → Nat
+  outRows : Nat → Nat → Nat
+  outCols : Nat → Nat → Nat
+  deleted : Nat → Nat
+
+def handHdr : HdrArith α :=
+  { crpixC1 := crpixC1Hand, crpixC2 := crpixC2Hand, crpixE1 := crpixE1Hand, crpixE2 := crpixE2Hand,
+    keyC1 := keyHand, keyC2 := keyHand, keyE1 := keyHand, keyE2 := keyHand,
+    upA1 := upHand, upB1 := upHand, upA2 := upHand, upB2 := upHand,
+    dnA1 := dnHand, dnB1 := dnHand, dnA2 := dnHand, dnB2 := dnHand }
+
+def handBn : BnArith :=
+  { cfac := bnCfacHand, npx1 := bnNpx1Hand, npx2 := bnNpx2Hand, rpx1 := bnRpx1Hand, rpx2 := bnRpx2Hand,
+    outRows := outRowsHand, outCols := outColsHand, deleted := bnDeletedHand }
+
+/-- glue for the keyword dispatch: `key` decides from which keywords are present, `fA` / `fB` give the new value
+    of CDELTi / CDi_i.  Code 0 (and a code that names an absent keyword: a KeyError in the code) is a refusal. -/
+def scaleWith (key : Nat → Nat → Nat) (fA fB : α → α → α) (fa : α) (cdelt cd : Option α) :
+    Option (Option α × Option α) :=
+  match key (if cdelt.isSome then 1 else 0) (if cd.isSome then 1 else 0), cdelt, cd with
+  | 1, some v, c => some (some (fA v fa), c)
+  | 2, c, some v => some (c, some (fB v fa))
+  | _, _, _ => none
+
 /-! ### compress -/
 
 /-- which original row (column) the `k`-th compressed row (column) holds: the decimation node `k·f`
     for `k < nn`, and the last original row for the extra row appended at the end -/
 def srcIndex (n nn f k : Nat) : Nat := if k < nn then k * f else n - 1
 
-/-- `header[key] *= factor` on whichever of CDELTi / CDi_i the code finds first -/
-def scaleUp (fa : α) (cdelt cd : Option α) : Option (Option α × Option α) :=
-  match cdelt, cd with
-  | some v, c => some (some (v * fa), c)
-  | none, some v => some (none, some (v * fa))
-  | none, none => none
-
-/-- `header[key] /= factor` on whichever of CDELTi / CDi_i the code finds first -/
-def scaleDown (fa : α) (cdelt cd : Option α) : Option (Option α × Option α) :=
-  match cdelt, cd with
-  | some v, c => some (some (v / fa), c)
-  | none, some v => some (none, some (v / fa))
-  | none, none => none
-
 /-- `compress(datafile, factor)`: the new header and the decimated image.
     `nxOf nyOf lcxOf lcyOf : rows → cols → factor → Nat` is the regenerated index arithmetic. -/
-def compress (nxOf nyOf lcxOf lcyOf : Nat → Nat → Nat → Nat) (f : Nat) (h : Hdr α) (im : Img α) :
+def compress (nxOf nyOf lcxOf lcyOf : Nat → Nat → Nat → Nat) (H : HdrArith α) (B : BnArith)
+    (f : Nat) (h : Hdr α) (im : Img α) :
     Except Err (Hdr α × Img α) :=
   if f = 0 then .error .badFactor
   else if im.rows < 2 ∨ im.cols < 2 then .error .squeezed
@@ -102,18 +169,21 @@ def compress (nxOf nyOf lcxOf lcyOf : Nat → Nat → Nat → Nat) (f : Nat) (h 
     if (Py.range 0 im.rows f).length ≠ nx ∨ (Py.range 0 im.cols f).length ≠ ny then .error .shapeMismatch
     else
       let fa : α := R.ofNat f
-      match scaleUp fa h.cdelt1 h.cd11 with
+      let lcx := lcxOf im.rows im.cols f
+      let lcy := lcyOf im.rows im.cols f
+      match scaleWith H.keyC1 H.upA1 H.upB1 fa h.cdelt1 h.cd11 with
       | none => .error .noScale1
       | some (cdelt1, cd11) =>
-        match scaleUp fa h.cdelt2 h.cd22 with
+        match scaleWith H.keyC2 H.upA2 H.upB2 fa h.cdelt2 h.cd22 with
         | none => .error .noScale2
         | some (cdelt2, cd22) =>
           .ok ({ naxis1 := ny + 1, naxis2 := nx + 1,
-                 crpix1 := (h.crpix1 + fa - R.ofNat 1) / fa,
-                 crpix2 := (h.crpix2 + fa - R.ofNat 1) / fa,
+                 crpix1 := H.crpixC1 h.crpix1 h.crpix2 fa,
+                 crpix2 := H.crpixC2 h.crpix1 h.crpix2 fa,
                  cdelt1 := cdelt1, cd11 := cd11, cdelt2 := cdelt2, cd22 := cd22,
-                 bn := some { cfac := f, npx1 := h.naxis1, npx2 := h.naxis2,
-                              rpx1 := lcxOf im.rows im.cols f, rpx2 := lcyOf im.rows im.cols f },
+                 bn := some { cfac := B.cfac f h.naxis1 h.naxis2 lcx lcy, npx1 := B.npx1 f h.naxis1 h.naxis2 lcx lcy,
+                              npx2 := B.npx2 f h.naxis1 h.naxis2 lcx lcy, rpx1 := B.rpx1 f h.naxis1 h.naxis2 lcx lcy,
+                              rpx2 := B.rpx2 f h.naxis1 h.naxis2 lcx lcy },
                  other := h.other },
                { rows := nx + 1, cols := ny + 1,
                  px := fun i j => im.px (srcIndex im.rows nx f i) (srcIndex im.cols ny f j) })
@@ -152,7 +222,7 @@ def covers (g : Nat → Nat) (m n : Nat) : Bool :=
 
 /-- `expand(datafile)`.  `nodeRow nodeCol : k → BN_RPX1 → BN_RPX2 → factor → Nat` is the regenerated
     node coordinate of the `k`-th compressed row / column. -/
-def expand (nodeRow nodeCol : Nat → Nat → Nat → Nat → Nat) (h : Hdr α) (im : Img α) :
+def expand (nodeRow nodeCol : Nat → Nat → Nat → Nat → Nat) (H : HdrArith α) (B : BnArith) (h : Hdr α) (im : Img α) :
     Except Err (Hdr α × Img α) :=
   match h.bn with
   | none => .ok (h, im)                    -- not compressed: returned unchanged
@@ -162,32 +232,34 @@ def expand (nodeRow nodeCol : Nat → Nat → Nat → Nat → Nat) (h : Hdr α) 
     else
       let gr := fun k => nodeRow k bn.rpx1 bn.rpx2 f
       let gc := fun k => nodeCol k bn.rpx1 bn.rpx2 f
+      let orows := B.outRows bn.npx1 bn.npx2      -- np.mgrid[0:BN_NPX2, 0:BN_NPX1] on the pinned tree
+      let ocols := B.outCols bn.npx1 bn.npx2
       if im.rows < 2 ∨ im.cols < 2 then .error .degenerate
       else if !(ascending gr im.rows && ascending gc im.cols) then .error .notAscending
-      else if !(bn.npx1 = 0 || bn.npx2 = 0 || (covers gr im.rows bn.npx2 && covers gc im.cols bn.npx1))
+      else if !(ocols = 0 || orows = 0 || (covers gr im.rows orows && covers gc im.cols ocols))
         then .error .outOfBounds
       else
         let fa : α := R.ofNat f
-        let one : α := R.ofNat 1
-        match scaleDown fa h.cdelt1 h.cd11 with
+        match scaleWith H.keyE1 H.dnA1 H.dnB1 fa h.cdelt1 h.cd11 with
         | none => .error .noScale1
         | some (cdelt1, cd11) =>
-          match scaleDown fa h.cdelt2 h.cd22 with
+          match scaleWith H.keyE2 H.dnA2 H.dnB2 fa h.cdelt2 h.cd22 with
           | none => .error .noScale2
           | some (cdelt2, cd22) =>
-            .ok ({ naxis1 := bn.npx1, naxis2 := bn.npx2,
-                   crpix1 := (h.crpix1 - one) * fa + one,
-                   crpix2 := (h.crpix2 - one) * fa + one,
+            .ok ({ naxis1 := ocols, naxis2 := orows,
+                   crpix1 := H.crpixE1 h.crpix1 h.crpix2 fa,
+                   crpix2 := H.crpixE2 h.crpix1 h.crpix2 fa,
                    cdelt1 := cdelt1, cd11 := cd11, cdelt2 := cdelt2, cd22 := cd22,
-                   bn := none, other := h.other },
-                 { rows := bn.npx2, cols := bn.npx1,
+                   -- the BN_* cards go only if expand deletes all five of them
+                   bn := if B.deleted 0 = 31 then none else some bn, other := h.other },
+                 { rows := orows, cols := ocols,
                    px := interp2 gr gc im.rows im.cols im.px })
 
 /-- compress, then expand what came out -/
 def roundTrip (nxOf nyOf lcxOf lcyOf : Nat → Nat → Nat → Nat) (nodeRow nodeCol : Nat → Nat → Nat → Nat → Nat)
-    (f : Nat) (h : Hdr α) (im : Img α) : Except Err (Hdr α × Img α) :=
-  match compress nxOf nyOf lcxOf lcyOf f h im with
+    (H : HdrArith α) (B : BnArith) (f : Nat) (h : Hdr α) (im : Img α) : Except Err (Hdr α × Img α) :=
+  match compress nxOf nyOf lcxOf lcyOf H B f h im with
   | .error e => .error e
-  | .ok (hc, c) => expand nodeRow nodeCol hc c
+  | .ok (hc, c) => expand nodeRow nodeCol H B hc c
 
 end Aegean.Model.C15
